@@ -218,6 +218,18 @@ def extract_posctl():
     return final
 
 
+class Ctx:
+    """facts of one tree: MIR facts (F) and syntax facts (S)"""
+
+    def __init__(self, facts_dir, root):
+        import mir
+        self.root = root
+        self.dir = facts_dir
+        self.F = mir.Facts(facts_dir)
+        sf = os.path.join(facts_dir, "srcfacts.json")
+        self.S = json.load(open(sf)) if os.path.exists(sf) else None
+
+
 # --------------------------------------------------------------------------- reporting
 
 class Report:
